@@ -1,5 +1,6 @@
 import Svgbob.Proofs.Shift
 import Svgbob.Proofs.MoveAll2
+import Svgbob.Proofs.FrontShift
 /-!
 # C06 — moving a drawing on the page only translates its rendering
 
@@ -12,11 +13,14 @@ result, element by element and in the same order. It is composed from the stage 
 (every predicate the stages evaluate is a function of coordinate differences; cell-local table
 lookups see the same neighbourhood) and from an invariant (`Frag.Movable`: no polygon without
 points, decided over the regenerated tables and preserved by every merge).
-Not covered by a theorem: the front end (text → cells; a drawing moved by `k` columns / `n` rows in
-the text is the moved cell set unless quoted regions or a legend interfere) and the back end
-(moved fragments render with coordinates offset by `scale·(k, 2n)` and a larger canvas). Both are
-checked on the implementation by the shift oracle at offsets up to (400, 200), and the model is
-tied to the implementation byte-for-byte there.
+The front end is covered at the level of rows (`rows_to_fragments_equivariant`: `n` blank rows in
+front and every non-empty row indented by `k` blanks, quoted regions included, give the moved cells
+and quoted texts and hence the moved fragments; the environment must say that a blank is white space
+and one column wide). Not covered by a theorem: splitting the text into rows and the legend cut-off
+(a legend block is not moved with the drawing), and the back end (moved fragments render with
+coordinates offset by `scale·(k, 2n)` and a larger canvas). Those are checked on the implementation
+by the shift oracle at offsets up to (400, 200), and the model is tied to the implementation
+byte-for-byte there.
 -/
 namespace Svgbob.C06
 open Svgbob
@@ -28,6 +32,26 @@ theorem whole_middle_equivariant (len : List Char → Nat) (cat : Catalogue) (k 
     endorseAll len cat (Span.shift k n cells) (escaped.map fun e => (e.1.shift k n, e.2)) =
       (endorseAll len cat cells escaped).map (moveResult k n) :=
   endorseAll_shift len cat k n cells escaped
+
+/-- **rows of text to fragments**: a drawing moved by `k` columns and `n` rows in the text (blank
+rows in front, every non-empty row indented) yields exactly the moved fragments and groups -/
+theorem rows_to_fragments_equivariant (env : Env) (h : env.SpaceOk) (len : List Char → Nat)
+    (cat : Catalogue) (k n : Nat) (rows : List (List Char)) :
+    endorseAll len cat (rowsFront env 0 (List.replicate n [] ++ rows.map (indentRow k))).1
+        (rowsFront env 0 (List.replicate n [] ++ rows.map (indentRow k))).2 =
+      (endorseAll len cat (rowsFront env 0 rows).1 (rowsFront env 0 rows).2).map (moveResult k n) := by
+  rw [rowsFront_place env h k n rows]
+  exact endorseAll_shift len cat k n _ _
+
+/-- the front end alone: cells and quoted texts of the moved rows -/
+theorem front_rows_equivariant (env : Env) (h : env.SpaceOk) (k n : Nat) (rows : List (List Char)) :
+    rowsFront env 0 (List.replicate n [] ++ rows.map (indentRow k)) =
+      (Span.shift k n (rowsFront env 0 rows).1,
+       (rowsFront env 0 rows).2.map fun e => (e.1.shift k n, e.2)) :=
+  rowsFront_place env h k n rows
+
+/-- the hypothesis on the environment is satisfiable: blanks are white space of width one -/
+example : (⟨fun _ => some 1, fun c => c == ' '⟩ : Env).SpaceOk := ⟨rfl, rfl⟩
 
 /-- what "moved" means for the result: every top-level fragment and every fragment of every group
 has its points offset by `(1000 k, 2000 n)` milli-units (texts: their cell by `(k, n)`), its span
